@@ -236,7 +236,52 @@ fn c01(args: &Args, agg: &mut Aggregate) {
         for u in &used { o.tags.push(format!("xml:{}", u)); }
         o.tags.push(format!("blocks:{}", match parts.partition.len() { 0 | 1 => "1", 2..=4 => "2-4", _ => ">4" }));
         o.tags.push(format!("creds:{}", base.creds.kind));
+        // earlier reads on this thread must not matter: damaged and cut variants of this file, and (below) the
+        // file itself before a sibling that shares its credentials and KDF seed
+        if rng.chance(1, 2) { crate::prior::reads(&file, &base.creds.key(), rng); o.tags.push("after-earlier-reads".into()); }
         let opened = catch(|| Database::open(&mut &file[..], base.creds.key()));
+        // a sibling file: same content, credentials, KDF seed - other KDF parameters (one more round or
+        // iteration, the other Argon2 variant); a reader that remembers a derived key per (credentials, seed)
+        // gets this one wrong
+        if rng.chance(1, 2) {
+            let mut ents = crate::frame::vd_entries_of(&base.bytes, &s);
+            let t: Vec<&str> = s.kdf.trim_matches(|c| c == '(' || c == ')').split(' ').collect();
+            let (desc2, kdf2) = if t[0] == "aes" {
+                let r: u64 = t[1].parse().unwrap_or(1);
+                for e in ents.iter_mut() { if e.0 == b"R".to_vec() { e.2 = (r + 1).to_le_bytes().to_vec(); } }
+                (format!("(aes {})", r + 1), keepass::config::KdfConfig::Aes { rounds: r + 1 })
+            } else {
+                let (i, m, p): (u64, u64, u32) = (t[2].parse().unwrap_or(1), t[3].parse().unwrap_or(8192), t[4].parse().unwrap_or(1));
+                let version = if t[5] == "16" { argon2::Version::Version10 } else { argon2::Version::Version13 };
+                if rng.chance(1, 2) {
+                    for e in ents.iter_mut() { if e.0 == b"I".to_vec() { e.2 = (i + 1).to_le_bytes().to_vec(); } }
+                    let k = if t[1] == "id" { keepass::config::KdfConfig::Argon2id { iterations: i + 1, memory: m, parallelism: p, version } } else { keepass::config::KdfConfig::Argon2 { iterations: i + 1, memory: m, parallelism: p, version } };
+                    (format!("(argon2 {} {} {} {} {})", t[1], i + 1, m, p, t[5]), k)
+                } else {
+                    const D: [u8; 16] = [0xef, 0x63, 0x6d, 0xdf, 0x8c, 0x29, 0x44, 0x4b, 0x91, 0xf7, 0xa9, 0xa4, 0x03, 0xe3, 0x0a, 0x0c];
+                    const ID: [u8; 16] = [0x9e, 0x29, 0x8b, 0x19, 0x56, 0xdb, 0x47, 0x73, 0xb2, 0x3d, 0xfc, 0x3e, 0xc6, 0xf0, 0xa1, 0xe6];
+                    let to_id = t[1] != "id";
+                    for e in ents.iter_mut() { if e.0 == b"$UUID".to_vec() { e.2 = if to_id { ID.to_vec() } else { D.to_vec() }; } }
+                    let k = if to_id { keepass::config::KdfConfig::Argon2id { iterations: i, memory: m, parallelism: p, version } } else { keepass::config::KdfConfig::Argon2 { iterations: i, memory: m, parallelism: p, version } };
+                    (format!("(argon2 {} {} {} {} {})", if to_id { "id" } else { "d" }, i, m, p, t[5]), k)
+                }
+            };
+            let composite = oracle::sha256(&els.concat());
+            if let Some(t2) = oracle::kdf(&desc2, &s.kdf_seed, &composite) {
+                let mut p2 = parts.clone();
+                p2.transformed = t2;
+                if let Some(f) = p2.fields.iter_mut().find(|f| f.0 == 11) { f.1 = crate::frame::vd_bytes(&ents); }
+                let file2 = p2.build();
+                let mut want2 = want.clone();
+                want2.config.kdf_config = kdf2;
+                o.tags.push("sibling:same-seed-other-kdf-parameters".into());
+                match catch(|| Database::open(&mut &file2[..], base.creds.key())) {
+                    Err(p) => o.violation = Some(format!("open panicked: {}", p)),
+                    Ok(Err(e)) => o.violation = Some(format!("a file with the same credentials and KDF seed as the one opened before, under KDF {}, does not open: {}", desc2, open_error_class(&e))),
+                    Ok(Ok(d)) => if d != want2 { o.violation = Some(format!("the sibling file ({}) opens to different content: {}", desc2, crate::diff::first_difference(&want2, &d))); }
+                }
+            }
+        }
         match opened {
             Err(p) => o.violation = Some(format!("open panicked: {}", p)),
             Ok(Err(e)) => o.violation = Some(format!("a conforming layout of the same content does not open: {}", open_error_class(&e))),
@@ -317,7 +362,13 @@ pub fn independent_keyfile_key(file: &[u8]) -> Vec<u8> {
 // ---------------- C04: only the exact credentials open ----------------
 fn edit_password(rng: &mut Rng, p: &str) -> String {
     let mut cs: Vec<char> = p.chars().collect();
-    match rng.below(7) {
+    match rng.below(8) {
+        7 if !cs.is_empty() => { // a character replaced by one whose code point differs by a multiple of 256
+            // (the same low byte: a lossy single-byte re-encoding of the password cannot tell them apart)
+            let i = rng.below(cs.len() as u64) as usize;
+            let c = cs[i] as u32;
+            let k = rng.range(1, 40) as u32;
+            cs[i] = char::from_u32(c + 0x100 * k).filter(|_| c + 0x100 * k < 0xD800).unwrap_or('\u{172}'); }
         0 => { cs.push(' '); }
         1 if !cs.is_empty() => { let i = rng.below(cs.len() as u64) as usize; cs.remove(i); }
         2 => { let i = rng.below(cs.len() as u64 + 1) as usize; cs.insert(i, 'x'); }
@@ -484,7 +535,7 @@ fn c04(args: &Args, agg: &mut Aggregate) {
         o.nontrivial = true;
         o
     });
-    write_report(args, agg, "streams: wrong-credentials (small saved databases under every credential composition and key-file encoding x up to 12 semantically different credential sets: password substitution/insertion/deletion/case/NUL/combining mark/leading or trailing blank, password removed or added, key file removed/added/swapped/one bit flipped, empty credentials; result class compared with the model's decrypt4), wrong-credentials-legacy (KDB and KDBX 3.1 files built by the independent writers under generated credentials x up to 10 such edits: opening must fail with an error) and fixtures (all three formats, five wrong credential sets each); non-trivial = at least three semantically different edits tried", serde_json::json!({}));
+    write_report(args, agg, "streams: wrong-credentials (small saved databases under every credential composition and key-file encoding x up to 12 semantically different credential sets: password substitution (incl. a character with the same low byte, 256 code points away)/insertion/deletion/case/NUL/combining mark/leading or trailing blank, password removed or added, key file removed/added/swapped/one bit flipped, empty credentials; result class compared with the model's decrypt4), wrong-credentials-legacy (KDB and KDBX 3.1 files built by the independent writers under generated credentials x up to 10 such edits: opening must fail with an error) and fixtures (all three formats, five wrong credential sets each); non-trivial = at least three semantically different edits tried", serde_json::json!({}));
 }
 
 // ---------------- C05: alterations without the key ----------------
@@ -498,7 +549,7 @@ fn c05(args: &Args, agg: &mut Aggregate) {
         // a multi-block version of the file (a conforming writer may split the payload)
         let mut parts = Parts::of(&base.bytes, &s, &els);
         let enc_len = s.payload_encrypted.len();
-        let nb = rng.range(1, 4) as usize;
+        let nb = if rng.chance(1, 4) { rng.range(5, 24) as usize } else { rng.range(1, 4) as usize };
         parts.partition = (0..nb).map(|i| if i + 1 == nb { enc_len - (enc_len / nb) * (nb - 1) } else { enc_len / nb }).filter(|x| *x > 0).collect();
         let file = parts.build();
         let hl = parts.header().len();
@@ -614,7 +665,7 @@ fn c05(args: &Args, agg: &mut Aggregate) {
         o.nontrivial = true;
         o
     });
-    write_report(args, agg, "small saved databases re-framed into 1..4 HMAC blocks x 60 (quick) / 400 (thorough) alterations made without the key: single-byte substitutions anywhere (header, hash, HMAC, block HMACs, lengths, ciphertext), truncation at any offset and at block boundaries with and without the terminator, block swap/duplication/removal, header edits with the SHA-256 recomputed, appended tails, multi-byte ciphertext edits, swapped/zeroed check values, and multi-step alterations (closing block removed + last data block edited; edit + appended tail; file cut inside or after the last data block + that block's length word raised beyond the remaining bytes + a ciphertext bit flipped); plus 2 (quick) / 8 (thorough) tag sweeps per case (an authenticated byte altered, then one byte of the matching HMAC run through all 256 values); every mutant is opened with the right key (must fail or equal the original) and its inner XML extracted with get_xml (must fail or return the original document), every sixth is also decoded by the model and compared; each case is non-trivial; distinct = distinct file shape", serde_json::json!({"mutants_per_case": if exhaustive { 400 } else { 60 }}));
+    write_report(args, agg, "small saved databases re-framed into 1..4 (a quarter of the cases 5..24) HMAC blocks x 60 (quick) / 400 (thorough) alterations made without the key: single-byte substitutions anywhere (header, hash, HMAC, block HMACs, lengths, ciphertext), truncation at any offset and at block boundaries with and without the terminator, block swap/duplication/removal, header edits with the SHA-256 recomputed, appended tails, multi-byte ciphertext edits, swapped/zeroed check values, and multi-step alterations (closing block removed + last data block edited; edit + appended tail; file cut inside or after the last data block + that block's length word raised beyond the remaining bytes + a ciphertext bit flipped); plus 2 (quick) / 8 (thorough) tag sweeps per case (an authenticated byte altered, then one byte of the matching HMAC run through all 256 values); every mutant is opened with the right key (must fail or equal the original) and its inner XML extracted with get_xml (must fail or return the original document), every sixth is also decoded by the model and compared; each case is non-trivial; distinct = distinct file shape", serde_json::json!({"mutants_per_case": if exhaustive { 400 } else { 60 }}));
 }
 
 // ---------------- C06: malformed input never panics ----------------
@@ -656,7 +707,18 @@ fn c06(args: &Args, agg: &mut Aggregate) {
         let els = base.creds.elements();
         let s = match strict::read(&base.bytes, &els) { Ok(s) => s, Err(w) => { o.violation = Some(format!("strict reader rejects: {}", w)); return o; } };
         let mut parts = Parts::of(&base.bytes, &s, &els);
-        let kind: &str = match rng.below(17) {
+        let kind: &str = match rng.below(19) {
+            17 | 18 => { // a numeric KDF parameter (rounds, iterations, memory, parallelism, version) set to a
+                // boundary value; the derived key is recomputed where the independent KDF accepts the value
+                let mut ents = crate::frame::vd_entries_of(&base.bytes, &s);
+                let nums: Vec<usize> = (0..ents.len()).filter(|&i| (ents[i].1 == 0x04 || ents[i].1 == 0x05) && ents[i].0 != b"S".to_vec()).collect();
+                if !nums.is_empty() {
+                    let i = *rng.pick(&nums);
+                    let v: u64 = *rng.pick(&[0u64, 0, 1, 2, 7, 8, 1023, 1024, 8191, 0x10, 0x13, 0x14, u32::MAX as u64]);
+                    ents[i].2 = if ents[i].1 == 0x04 { (v as u32).to_le_bytes().to_vec() } else { v.to_le_bytes().to_vec() };
+                    if let Some(f) = parts.fields.iter_mut().find(|f| f.0 == 11) { f.1 = crate::frame::vd_bytes(&ents); }
+                }
+                "kdf-parameter-boundary" }
             0 => { let i = rng.below(parts.fields.len() as u64) as usize; parts.fields.remove(i); "missing-header-field" }
             1 => { let i = rng.below(parts.fields.len() as u64) as usize; let f = parts.fields[i].clone(); parts.fields.push(f); "duplicate-header-field" }
             2 => { let i = rng.below(parts.fields.len() as u64) as usize; parts.fields[i].0 = *rng.pick(&[5u8, 6, 8, 9, 10, 12, 200]); "unknown-header-type" }
@@ -911,7 +973,7 @@ fn c06(args: &Args, agg: &mut Aggregate) {
         o.nontrivial = true;
         o
     });
-    write_report(args, agg, "streams: corpus-damage (every repository sample file of all three formats: every kind of prefix, random byte damage, extreme 32-bit length words in the first 300 bytes, random bytes, prefix plus noise; open, get_xml, get_version and open with arbitrary key-file bytes, each under catch_unwind) and kdbx4-structure (saved files rebuilt WITH the key by an independent builder after a structure-aware mutation: missing/duplicate/unknown/short/long header fields, damaged KDF dictionary, damaged inner header, truncated XML, ill-typed element text incl. short and over-range base64 time stamps, no terminator block, flipped compression flag, deep group nesting, end-field content; result class compared with the model's decrypt4), kdb-structure (generated KDB content laid out by the independent KDB writer, damaged at record level - extreme and off-by-one size words, unknown types, truncation, wrong group/entry counts, removed/duplicated/swapped records, wrong widths of fixed-width fields, level jumps - and then authenticated: content hash and encryption redone; result compared with the extracted KDB reader) and kdbx3-structure (independent KDBX 3.1 writer: truncated/ill-typed XML, extreme block size words, missing final block, empty stream, payload cut inside a block header or the stream start bytes, wrong block hash; result class compared with the extracted KDBX 3.1 reader), leaf-text (for every kind of leaf element of a saved document, once per file: its text replaced by text of the same byte length that keeps the first character and contains a multi-byte character; the file re-authenticated and opened) and keyfile-structure (XML key files with varied versions, Hash attributes of every length and shape, hex/base64/other payloads, duplicated, nested, missing and unterminated elements; used through with_keyfile + open; verdict compared with the key model fed the xml-rs events) and deep-nesting (authenticated files whose XML nests an unknown element 2 000..60 000 levels deep under Meta, Root, Group, Entry, a history entry or a custom-data item, or nests Group elements / Entry-History pairs 100, 300 and 100 000 levels deep; each is opened and its XML extracted in a child process on an 8 MiB stack with a 300 s watchdog, and the exit status is the observation - the stack does not exist in the model); every case is non-trivial", serde_json::json!({}));
+    write_report(args, agg, "streams: corpus-damage (every repository sample file of all three formats: every kind of prefix, random byte damage, extreme 32-bit length words in the first 300 bytes, random bytes, prefix plus noise; open, get_xml, get_version and open with arbitrary key-file bytes, each under catch_unwind) and kdbx4-structure (saved files rebuilt WITH the key by an independent builder after a structure-aware mutation: missing/duplicate/unknown/short/long header fields, damaged KDF dictionary, damaged inner header, numeric KDF parameters at boundary values (0, 1, 7/8, 1023/1024, versions, 2^32-1), truncated XML, ill-typed element text incl. short and over-range base64 time stamps, no terminator block, flipped compression flag, deep group nesting, end-field content; result class compared with the model's decrypt4), kdb-structure (generated KDB content laid out by the independent KDB writer, damaged at record level - extreme and off-by-one size words, unknown types, truncation, wrong group/entry counts, removed/duplicated/swapped records, wrong widths of fixed-width fields, level jumps - and then authenticated: content hash and encryption redone; result compared with the extracted KDB reader) and kdbx3-structure (independent KDBX 3.1 writer: truncated/ill-typed XML, extreme block size words, missing final block, empty stream, payload cut inside a block header or the stream start bytes, wrong block hash; result class compared with the extracted KDBX 3.1 reader), leaf-text (for every kind of leaf element of a saved document, once per file: its text replaced by text of the same byte length that keeps the first character and contains a multi-byte character; the file re-authenticated and opened) and keyfile-structure (XML key files with varied versions, Hash attributes of every length and shape, hex/base64/other payloads, duplicated, nested, missing and unterminated elements; used through with_keyfile + open; verdict compared with the key model fed the xml-rs events) and deep-nesting (authenticated files whose XML nests an unknown element 2 000..60 000 levels deep under Meta, Root, Group, Entry, a history entry or a custom-data item, or nests Group elements / Entry-History pairs 100, 300 and 100 000 levels deep; each is opened and its XML extracted in a child process on an 8 MiB stack with a 300 s watchdog, and the exit status is the observation - the stack does not exist in the model); every case is non-trivial", serde_json::json!({}));
 }
 
 /// class of a panic message, for matching the known findings by site
